@@ -98,9 +98,6 @@ Qed.
 
 (* ================================================================== byte-level scan *)
 
-Definition scan_byte (lc : nat * nat) (b : N) : nat * nat :=
-  if N.eqb b 10 then (S (fst lc), 0)
-  else if is_cont b then lc else (fst lc, S (snd lc)).
 Definition scan_from (lc : nat * nat) (l : list N) : nat * nat := fold_left scan_byte l lc.
 
 Lemma scan_from_app : forall a b lc, scan_from lc (a ++ b) = scan_from (scan_from lc a) b.
@@ -1083,4 +1080,34 @@ Proof.
   cbn zeta in Hstep. rewrite <- Hsplit in Hstep. destruct (Hstep Hst Hb) as [H1 H2].
   subst st'. split; [exact H1|]. split; [rewrite app_length; exact H2|].
   apply make_span_wf; [exact Hst|exact H1|lia].
+Qed.
+
+(* ================================================================== the fast checker *)
+
+Lemma scan_table_nth : forall l lc off, off <= length l ->
+  nth_error (scan_table lc l) off = Some (scan_from lc (firstn off l)).
+Proof.
+  induction l as [|b t IH]; intros lc off H.
+  - cbn in H. assert (off = 0) as -> by lia. reflexivity.
+  - destruct off as [|off]; [reflexivity|]. cbn [scan_table nth_error firstn length] in *.
+    rewrite IH by lia. reflexivity.
+Qed.
+
+Lemma span_wfb_tbl_ok : forall src sp,
+  span_wfb_tbl src (scan_table (1, 0) src) sp = span_wfb src sp.
+Proof.
+  intros src sp. unfold span_wfb_tbl, span_wfb.
+  destruct (rstart sp <=? rend sp) eqn:E1; [|reflexivity].
+  destruct (rend sp <=? length src) eqn:E2; [|reflexivity].
+  apply Nat.leb_le in E1. apply Nat.leb_le in E2.
+  rewrite !scan_table_nth by lia. rewrite <- !linecol_scan.
+  destruct (is_char_boundary src (rstart sp)); [|reflexivity].
+  destruct (is_char_boundary src (rend sp)); [|reflexivity].
+  cbn [andb]. reflexivity.
+Qed.
+
+Lemma spans_wfb_ok : forall src sps, spans_wfb src sps = forallb (span_wfb src) sps.
+Proof.
+  intros src sps. unfold spans_wfb. induction sps as [|s t IH]; [reflexivity|].
+  cbn [forallb]. rewrite span_wfb_tbl_ok, IH. reflexivity.
 Qed.
